@@ -43,7 +43,12 @@ FourierCheck ==
           \cup Fails(EvenLength(R.y, R.even), "EvenLength")
           \cup (IF samePeriod
                 THEN Fails(\A j \in 1..m : Close(R.y[j], Poly(FMul(FInt(j - 1), R.ndt)), FMul(FStr("1e-9"), FAdd(amp, FStr("1e-300")))), "FourierExact")
-                ELSE {})
+                ELSE \* the returned record covers another span than the input: a periodic signal cannot be reproduced at the labelled
+                     \* instants.  That is admissible only if the count had to be trimmed: when no even count is requested and the
+                     \* record is a whole number of new steps long, the whole period must be covered.
+                     LET q == FDiv(FMul(FInt(R.n), R.dt), R.ndt)
+                         whole == Close(q, FInt(FRound(q)), FStr("1e-9")) /\ ~FLt(R.ndt, Zero) /\ FGt(R.ndt, Zero)
+                     IN Fails(R.even \/ ~whole, "FourierExact"))
 
 Step == l = 0 /\ l' = 1 /\ tid' = tid /\ bad' = (IF R.kind = "interp" THEN InterpCheck ELSE FourierCheck)
 Finish == l = 1 /\ l' = -1 /\ UNCHANGED <<tid, bad>>
